@@ -61,10 +61,9 @@ pub fn add_trusted_path(path: PathBuf) -> Result<()> {
         .truncate(false)
         .open(&path)?;
     let stat = file.metadata()?;
-    #[cfg(not(woodpile_verif))]
-    let dev = stat.dev();
     #[cfg(woodpile_verif)]
-    let dev = verif_stat(&stat)?.0;
+    let stat = verif_stat(stat)?;
+    let dev = stat.dev();
     // Check that we can actually use this path for base time updates.
     //
     // This call may fail for I/O, but should not fail
@@ -255,20 +254,21 @@ fn update_base_time(
     let begin = std::time::Instant::now();
 
     let stat = file.metadata()?;
-    #[cfg(not(woodpile_verif))]
-    let (dev, ctime, ctime_nsec) = (stat.dev(), stat.ctime(), stat.ctime_nsec());
     #[cfg(woodpile_verif)]
-    let (dev, ctime, ctime_nsec) = verif_stat(&stat)?;
+    let stat = verif_stat(stat)?;
+    let dev = stat.dev();
     if !TRUSTED_PATHS.read().unwrap().contains_key(&dev) && options.extra_device != Some(dev) {
+        #[cfg(woodpile_verif)]
+        let stat = stat.into_inner();
         return Ok((stat, None));
     }
     const VOUCH_PARAMS: raffle::VouchingParameters = raffle::VouchingParameters::parse_or_die(
         "VOUCH-773ec2a0e62c20cd-f9e079b78e895091-fc1da7b1b77c57cb-594b9cce3091464a",
     );
 
-    let millis_since_epoch = (ctime as u64)
+    let millis_since_epoch = (stat.ctime() as u64)
         .saturating_mul(1000)
-        .saturating_add((ctime_nsec as u64) / 1_000_000);
+        .saturating_add((stat.ctime_nsec() as u64) / 1_000_000);
     let update = (millis_since_epoch, VOUCH_PARAMS.vouch(millis_since_epoch));
 
     let updated = if options.blocking {
@@ -282,6 +282,8 @@ fn update_base_time(
         LAST_UPDATE.set(Some(begin));
     }
 
+    #[cfg(woodpile_verif)]
+    let stat = stat.into_inner();
     Ok((stat, Some(update)))
 }
 
@@ -313,13 +315,37 @@ pub mod verif_hooks {
     }
 }
 
+/// Metadata whose `dev` / `ctime` / `ctime_nsec` may come from the stand-in queue.
 #[cfg(woodpile_verif)]
-fn verif_stat(stat: &std::fs::Metadata) -> Result<(u64, i64, i64)> {
-    use std::os::unix::fs::MetadataExt;
+struct VerifMeta {
+    inner: std::fs::Metadata,
+    over: Option<(u64, i64, i64)>,
+}
 
+#[cfg(woodpile_verif)]
+impl VerifMeta {
+    fn dev(&self) -> u64 {
+        use std::os::unix::fs::MetadataExt;
+        self.over.map_or_else(|| self.inner.dev(), |o| o.0)
+    }
+    fn ctime(&self) -> i64 {
+        use std::os::unix::fs::MetadataExt;
+        self.over.map_or_else(|| self.inner.ctime(), |o| o.1)
+    }
+    fn ctime_nsec(&self) -> i64 {
+        use std::os::unix::fs::MetadataExt;
+        self.over.map_or_else(|| self.inner.ctime_nsec(), |o| o.2)
+    }
+    fn into_inner(self) -> std::fs::Metadata {
+        self.inner
+    }
+}
+
+#[cfg(woodpile_verif)]
+fn verif_stat(stat: std::fs::Metadata) -> Result<VerifMeta> {
     match verif_hooks::STATS.with(|s| s.borrow_mut().pop_front()) {
-        None => Ok((stat.dev(), stat.ctime(), stat.ctime_nsec())),
-        Some(Some(triple)) => Ok(triple),
+        None => Ok(VerifMeta { inner: stat, over: None }),
+        Some(Some(triple)) => Ok(VerifMeta { inner: stat, over: Some(triple) }),
         Some(None) => Err(std::io::Error::other("verif: injected stat error")),
     }
 }
